@@ -969,7 +969,14 @@ fn run(a: &Args) {
                         Err(e) => format!("setup-error {e}"),
                     }
                 }
+                ["pse", ..] if kv(&ws, "skip").is_some() => "skipped".into(),
                 ["pse", ..] => match run_pse(&ws) {
+                    // the port reserved for a `bind` listener was taken by another process in the meantime: this
+                    // says nothing about the property — the line is rewritten so that the model skips it too
+                    Some((real, _)) if real.starts_with("setup-error bind:") && real.contains("in use") => {
+                        op_out = format!("{line} skip=ports");
+                        "skipped".into()
+                    }
                     Some((real, t3)) => {
                         for t in t3 {
                             let (p, m) = t.split_once('\t').unwrap();
